@@ -89,7 +89,7 @@ impl Inflection {
             Inflection::Upper => string.to_uppercase(),
             Inflection::Camel => {
                 let pascal = Inflection::apply(Inflection::Pascal, string);
-                pascal[..1].to_ascii_lowercase() + &pascal[1..]
+                lowercase_first(&pascal)
             }
             Inflection::Snake => {
                 let mut s = String::new();
@@ -126,6 +126,25 @@ impl Inflection {
             Inflection::ScreamingKebab => Self::Kebab.apply(string).to_ascii_uppercase(),
         }
     }
+}
+
+/// Converts the first character to ASCII lowercase.
+/// Unlike slicing at byte index 1, this cannot panic on an empty string
+/// or on a string starting with a multi-byte character.
+fn lowercase_first(string: &str) -> String {
+    let mut s = String::with_capacity(string.len());
+
+    let mut first = true;
+    for c in string.chars() {
+        if first {
+            s.push(c.to_ascii_lowercase());
+            first = false;
+        } else {
+            s.push(c);
+        }
+    }
+
+    s
 }
 
 fn skip_until_next_comma(input: ParseStream) -> proc_macro2::TokenStream {
